@@ -112,6 +112,70 @@ def c17_cases(spec, rng, thorough):
     return cs
 
 
+def combined_alias_check(rep, spec, diff_groups):
+    """C12: a legacy field name must designate the current field ALSO when another public header is
+    in the same translation unit (seed C12-7: an `#undef` / include-guarded alias block makes a legacy
+    name fall back to a sibling header's enumerator of the same name).  For every legacy format header
+    H and every other public header X, in both orders: the TU is compiled and run with the repo's own
+    compiler; where it compiles, every alias must equal its target.  (A pair that does not compile is
+    C20's subject.)"""
+    import glob
+    import os
+    import subprocess
+    import tempfile
+    import harness_gen
+    from concurrent.futures import ThreadPoolExecutor
+    inc = os.path.join(common.REPO, "include")
+    headers = sorted(os.path.relpath(h, inc) for h in glob.glob(os.path.join(inc, "avtp", "**", "*.h"), recursive=True))
+    jobs = []
+    for f in spec["formats"]:
+        leg = f.get("legacy")
+        if not leg or not leg["aliases"]:
+            continue
+        H = harness_gen.HEADER_OF[f["name"]]
+        for X in headers:
+            if X == H:
+                continue
+            for order in ((X, H), (H, X)):
+                jobs.append((f["name"], H, order, leg["aliases"]))
+    td = tempfile.mkdtemp(prefix="c12pairs_", dir=common.BUILD)
+
+    def one(k):
+        name, H, order, aliases = jobs[k]
+        src = ['#include <stdio.h>'] + ['#include "%s"' % h for h in order] + ["int main(void){"]
+        for a, t in aliases:
+            src.append('printf("%s %%lld %%lld\\n", (long long)(%s), (long long)(%s));' % (a, a, t))
+        src.append("return 0;}")
+        cfile = os.path.join(td, "p%d.c" % k)
+        open(cfile, "w").write("\n".join(src) + "\n")
+        exe = os.path.join(td, "p%d" % k)
+        r = subprocess.run(["gcc", "-w", "-std=gnu99", "-I", inc, cfile, "-o", exe], capture_output=True, text=True)
+        if r.returncode != 0:
+            return k, None
+        out = subprocess.run([exe], capture_output=True, text=True).stdout
+        return k, [l.split() for l in out.splitlines()]
+    with ThreadPoolExecutor(max_workers=16) as ex:
+        results = list(ex.map(one, range(len(jobs))))
+    import shutil
+    shutil.rmtree(td, ignore_errors=True)
+    n_tu = n_bad = 0
+    for k, rows in results:
+        if rows is None:
+            continue
+        n_tu += 1
+        name, H, order, aliases = jobs[k]
+        for a, va, vt in rows:
+            if va != vt:
+                n_bad += 1
+                other = order[0] if order[1] == H else order[1]
+                rep.violation("%s:legacy-name-changes-meaning-when-combined:%s" % (name, a),
+                              {"kind": "legacy-name-designates-another-field-in-a-combined-translation-unit", "legacy_name": a,
+                               "includes_in_order": list(order), "value_of_legacy_name": int(va), "value_of_current_name": int(vt),
+                               "how": "gcc -I /repo/include on a TU with these two includes printing both names", "other_header": other})
+                diff_groups.setdefault(name, []).append(0)
+    rep.cov["combined_tu_alias_check"] = {"translation_units_compiled": n_tu, "of": len(jobs), "names_that_differ": n_bad}
+
+
 def check(rep, prop, tier, seed):
     rng = common.rng_for(prop, seed)
     thorough = tier == "thorough"
@@ -150,6 +214,8 @@ def check(rep, prop, tier, seed):
     for i, *_ in bad:
         for part in cs.tags[i]["fmt"].split("~"):
             diff_groups.setdefault(part, []).append(i)
+    if prop == "C12":
+        combined_alias_check(rep, spec, diff_groups)
     pipeline.report_proof_failures(rep, prop, res, diff_groups)
     cells = {(t["fmt"], t["what"], t["path"]) for t in cs.tags}
     rep.cov.update(evaluations=len(cs.cases), distinct_nontrivial=len(cells),
